@@ -3,7 +3,7 @@
    and query give each distinct (id, version) once, attached filters reach
    every member.                                                              *)
 From Coq Require Import NArith ZArith List Bool Lia Permutation.
-From V Require Import Base.UString Model.Store Model.StoreRun Spec.StoreSpec
+From V Require Import Base.UString Model.Store Model.StoreRun Spec.StoreSpec Spec.StoreNavSpec
   Proofs.StoreBase Proofs.StoreMem Proofs.StoreFs Proofs.StoreAgree.
 Import ListNotations.
 Open Scope list_scope.
@@ -138,8 +138,6 @@ Proof.
 Qed.
 
 (* ---------- the latest-version loop of CompositeDataSource.get ---------- *)
-Definition versioned_all (l : list obj) : Prop := forall o, In o l -> exists t, ver_of o = VInst t.
-
 Lemma cget_loop_spec : forall l c,
   versioned_all (c :: l) ->
   exists o, cget_loop (Some (c, ver_of c)) l = Ok (Some o) /\ In o (c :: l) /\
@@ -168,12 +166,6 @@ Proof.
         destruct (ver_of o); simpl in *; try contradiction. apply Z.ltb_ge in El. lia.
       * apply O3. simpl. auto.
 Qed.
-
-Definition newest_of (l : list obj) (r : option obj) : Prop :=
-  match r with
-  | None => l = []
-  | Some o => In o l /\ forall o', In o' l -> v_ge (ver_of o) (ver_of o')
-  end.
 
 Lemma cget_loop_newest : forall l, versioned_all l -> exists r, cget_loop None l = Ok r /\ newest_of l r.
 Proof.
@@ -277,14 +269,6 @@ Section Composite.
   (* ---------- attached filters reach every member ---------- *)
   Lemma all_hold_app : forall a b o, all_hold (a ++ b) o = all_hold a o && all_hold b o.
   Proof. intros. unfold all_hold. apply forallb_app. Qed.
-
-  (* whatever a source returns satisfies the filters handed down to it (cf), its
-     own attached filters (own) and, for queries, the query *)
-  Definition sound_src (own : list sfilter) (m : source) : Prop :=
-    (forall cf id o, s_get m cf id = Ok (Some o) -> all_hold cf o = true /\ all_hold own o = true) /\
-    (forall cf id rs o, s_all m cf id = Ok rs -> In o rs -> all_hold cf o = true /\ all_hold own o = true) /\
-    (forall cf q rs o, s_query m cf q = Ok rs -> In o rs ->
-        all_hold cf o = true /\ all_hold own o = true /\ all_hold q o = true).
 
   Lemma mem_source_sound : forall af m, sound_src af (mem_source af m).
   Proof.
